@@ -13,6 +13,7 @@ import (
 	"reflect"
 	"strings"
 
+	"github.com/33cn/chain33/common/address"
 	"github.com/33cn/chain33/common/crypto"
 	_ "github.com/33cn/chain33/system/crypto/init"
 	"github.com/33cn/chain33/types"
@@ -345,6 +346,27 @@ func coqDrivers() string {
 	}
 	return "(" + hlib.List(it) + ")%Z"
 }
+
+// address ids whose driver derives an address from a public key (3 = utxo is registered but panics,
+// 4..7 have no driver): Transaction.checkSign refuses a Signature.ty naming another one
+func coqAddrIDs() string {
+	var it []string
+	for id := int32(0); id <= address.MaxID; id++ {
+		ok := func() (ok bool) {
+			defer func() {
+				if r := recover(); r != nil {
+					ok = false
+				}
+			}()
+			address.PubKeyToAddr(id, append([]byte{2}, make([]byte, 32)...))
+			return true
+		}()
+		if ok {
+			it = append(it, hlib.Z(int64(id)))
+		}
+	}
+	return hlib.List(it)
+}
 func drvID(name string) int32 {
 	for _, d := range registry {
 		if d.Name == name {
@@ -560,7 +582,7 @@ func runBatch(o *hlib.Out, kind string, b *batchJ) {
 	}()
 	if cr != 0 {
 		o.Emit(kind+"/create-error", true,
-			hlib.App("CBatch", coqDrivers(), hlib.List(inputTerms), hlib.Z(b.Rate), hlib.N(uint64(cr)), hlib.Z(0), "[]", "[]", "[]", "[]", "[]", "[]", "[]"),
+			hlib.App("CBatch", coqDrivers(), coqAddrIDs(), hlib.List(inputTerms), hlib.Z(b.Rate), hlib.N(uint64(cr)), hlib.Z(0), "[]", "[]", "[]", "[]", "[]", "[]", "[]"),
 			b, map[string]interface{}{"create": cr})
 		return
 	}
@@ -730,7 +752,7 @@ func runBatch(o *hlib.Out, kind string, b *batchJ) {
 		}
 	}
 	o.Emit(kind, nontrivial,
-		hlib.App("CBatch", coqDrivers(), hlib.List(inputTerms), hlib.Z(b.Rate), hlib.N(0), hlib.Z(G[0].Fee),
+		hlib.App("CBatch", coqDrivers(), coqAddrIDs(), hlib.List(inputTerms), hlib.Z(b.Rate), hlib.N(0), hlib.Z(G[0].Fee),
 			hlib.List(dg), hlib.Hx(dinit), hlib.List(sigs), hlib.List(poolTerms), hlib.List(poolDg),
 			hlib.List(envTerms), hlib.List(entryTerms)),
 		b, map[string]interface{}{"create": 0, "fee0": G[0].Fee, "entries": implOut})
